@@ -90,6 +90,25 @@ def live_roundtrip(tf, scratch, items, dialect, name):
     return got, (n1, n2)
 
 
+def unflushed_roundtrip(tf, scratch, items, dialect, name):
+    """Write with flush_on_insert=False and read back through the SAME open instance, then once more after close."""
+    path = os.path.join(scratch, name + ".csv")
+    db = tf.TinyFlux(path, auto_index=(len(items) % 2 == 1), flush_on_insert=False, **dialect)
+    for p, compact in items:
+        db.insert(p, compact_key_prefixes=compact)
+    got = db.all(sorted=False)
+    db.close()
+    db2 = tf.TinyFlux(path, auto_index=False, **dialect)
+    try:
+        again = db2.all(sorted=False)
+    finally:
+        db2.close()
+    os.unlink(path)
+    if len(again) != len(got):
+        return again
+    return got
+
+
 def roundtrip(tf, scratch, items, dialect, name):
     """items: list of (Point, compact flag).  Returns (decoded points or exception text, raw rows)."""
     path = os.path.join(scratch, name + ".csv")
@@ -163,7 +182,7 @@ def classify(p):
 
 
 def rand_text(rng):
-    pools = [",;\"'\r\n\t \x00", "_tfneoagild", "abcXYZ019", "éüß中\U0001F600́", "_none", "_tag_", "_field_", "t_", "f_"]
+    pools = [",;\"'\r\n\t \x00", "\x0b\x0c\x1c\x1d\x1e\x85\u2028\u2029", "_tfneoagild", "abcXYZ019", "éüß中\U0001F600́", "_none", "_tag_", "_field_", "t_", "f_"]
     n = rng.choice([0, 1, 1, 2, 3, 5, 8])
     out = []
     for _ in range(n):
@@ -339,6 +358,23 @@ def main():
                 if d:
                     rep.violation("reading through the live instance after a rewrite changes a point: %s (dialect %r): %r -> %r" % (d, dialect, p, q),
                                   {"dialect": str(dialect), "point": repr(p)}, tags={"live"} | _text_tags(p))
+            # ... and written with flush_on_insert=False, read back through the same instance before anything was flushed
+            try:
+                got3 = unflushed_roundtrip(tf, scratch, [(copy_point(tf, p), c) for p, c in safe], dialect, "n%d" % di)
+            except Exception as e:
+                rep.violation("flush_on_insert=False: reading back through the live instance raised %s: %s (dialect %r)" % (type(e).__name__, str(e)[:100], dialect),
+                              {"dialect": str(dialect)}, tags={"raise", "unflushed"})
+                continue
+            if len(got3) != len(safe):
+                rep.violation("flush_on_insert=False: %d points read back for %d written (dialect %r)" % (len(got3), len(safe), dialect),
+                              {"dialect": str(dialect)}, tags={"count", "unflushed"})
+                continue
+            for (p, c), q in zip(safe, got3):
+                n_checked += 1
+                d = same_point(p, q)
+                if d:
+                    rep.violation("flush_on_insert=False: reading through the live instance changes a point: %s (dialect %r): %r -> %r" % (d, dialect, p, q),
+                                  {"dialect": str(dialect), "point": repr(p)}, tags={"unflushed"} | _text_tags(p))
     finally:
         shutil.rmtree(scratch, ignore_errors=True)
     rep.coverage = {
